@@ -238,6 +238,59 @@ def failing_decls(build_out):
 
 # ------------------------------------------------------------------ known findings
 
+# ------------------------------------------------------------------ regression corpus
+# /verif/corpus/<ID>.json: the (minimised) failing inputs of every seeded change confirmed so far, stored with everything the
+# harness's oracle needs (tag, kind, ...).  They run FIRST in every tier and with every VERIF_SEED, so that a change of the same
+# kind is found without depending on what the random part of the generator happens to draw.  Written only by tools/mkcorpus.py.
+def _cj_enc(v):
+    if isinstance(v, Err):
+        return {"__err__": v.name}
+    if isinstance(v, fractions.Fraction):
+        return {"__frac__": [str(v.numerator), str(v.denominator)]}
+    if isinstance(v, tuple):
+        return {"__tuple__": [_cj_enc(x) for x in v]}
+    if isinstance(v, list):
+        return [_cj_enc(x) for x in v]
+    if isinstance(v, dict):
+        return {"__dict__": [[_cj_enc(k), _cj_enc(x)] for k, x in v.items()]}
+    if isinstance(v, int) and not isinstance(v, bool) and abs(v) > 2 ** 53:
+        return {"__int__": str(v)}
+    if isinstance(v, float) and (v != v or abs(v) == float("inf")):
+        return {"__float__": repr(v)}
+    return v
+
+def _cj_dec(v):
+    if isinstance(v, list):
+        return [_cj_dec(x) for x in v]
+    if isinstance(v, dict):
+        if "__err__" in v:
+            return Err(v["__err__"])
+        if "__frac__" in v:
+            return fractions.Fraction(int(v["__frac__"][0]), int(v["__frac__"][1]))
+        if "__tuple__" in v:
+            return tuple(_cj_dec(x) for x in v["__tuple__"])
+        if "__dict__" in v:
+            return {_cj_dec(k): _cj_dec(x) for k, x in v["__dict__"]}
+        if "__int__" in v:
+            return int(v["__int__"])
+        if "__float__" in v:
+            return float(v["__float__"])
+    return v
+
+def case_to_corpus(c, origin):
+    kw = {k: _cj_enc(v) for k, v in c.items() if k not in ("fn", "args", "tag", "model")}
+    return {"origin": origin, "fn": c["fn"], "args": _cj_enc(c["args"]), "tag": c["tag"], "model": c["model"], "kw": kw}
+
+def load_corpus(pid):
+    p = os.path.join(VERIF, "corpus", pid + ".json")
+    if not os.path.exists(p) or os.environ.get("VERIF_NO_CORPUS"):
+        return []
+    out = []
+    for e in json.load(open(p)):
+        kw = {k: _cj_dec(v) for k, v in e.get("kw", {}).items()}
+        out.append(Case(e["fn"], _cj_dec(e["args"]), "corpus/" + e.get("tag", ""), e.get("model", True), **kw))
+    return out
+
 def load_known(pid):
     p = os.path.join(VERIF, "known_findings.json")
     if not os.path.exists(p):
@@ -247,50 +300,125 @@ def load_known(pid):
 
 # ------------------------------------------------------------------ main flow
 
-def explore(h, tier, seed):
-    """run all cases of the tier: impl observation, oracle verdict, model observation"""
+def gen_cases(h, tier, seed):
     rng = random.Random(seed)
     cases = []
     seen = set()
-    for c in h.corpus_cases() if hasattr(h, "corpus_cases") else []:
+    for c in load_corpus(h.ID) + (h.corpus_cases() if hasattr(h, "corpus_cases") else []):
         if c.key() not in seen:
             seen.add(c.key()); cases.append(c)
     for c in h.cases(tier, rng):
         k = c.key()
         if k not in seen:
             seen.add(k); cases.append(c)
-    t0 = time.time()
+    return cases
+
+def run_impl(h, cases, budget, order=None):
+    """observations of the implementation on `cases`, called in the given order (default: as generated); a (changed)
+    implementation that gets slower and slower is cut off at the time budget: returns the observations made (index -> obs)"""
     import resource
+    t0 = time.time()
     soft, hard = resource.getrlimit(resource.RLIMIT_AS)
     cap = int(os.environ.get("VERIF_IMPL_MEM_GB", "12")) * 2 ** 30
     try:
         resource.setrlimit(resource.RLIMIT_AS, (cap if hard == resource.RLIM_INFINITY else min(cap, hard), hard))
     except (ValueError, OSError):
         pass
-    budget = float(os.environ.get("VERIF_IMPL_BUDGET", "240" if tier == "quick" else "3600"))
+    obs = {}
     try:
-        impl_obs = []
-        for c in cases:
+        for i in (order if order is not None else range(len(cases))):
             if time.time() - t0 > budget:
-                # a (changed) implementation that gets slower and slower: judge what was observed, say so
-                print("NOTE: implementation phase stopped after %d of %d cases (time budget %.0f s)" % (len(impl_obs), len(cases), budget))
-                cases = cases[:len(impl_obs)]
+                print("NOTE: implementation phase stopped after %d of %d cases (time budget %.0f s)" % (len(obs), len(cases), budget))
                 break
-            impl_obs.append(call_impl(h.IMPL, c))
+            obs[i] = call_impl(h.IMPL, cases[i])
     finally:
         try:
             resource.setrlimit(resource.RLIMIT_AS, (soft, hard))
         except (ValueError, OSError):
             pass
-    t_impl = time.time() - t0
+    return obs
+
+def second_pass(h, tier, seed, cases, budget):
+    """the same calls once more, in a FRESH interpreter and in REVERSE order: whatever the library remembers between calls
+    (memo tables, class-level lists, default arguments, module-level caches) is then filled in another order, so an answer that
+    depends on what was asked before is judged a second time.  Returns {index in `cases`: observation}."""
+    import pickle, tempfile
+    fd, out = tempfile.mkstemp(prefix="verif_pass2_", suffix=".pkl")
+    os.close(fd)
+    try:
+        env = dict(os.environ, VERIF_IMPL_BUDGET=str(budget))
+        p = subprocess.run([sys.executable, os.path.abspath(__file__), "--second-pass", h.ID, tier, str(seed), out],
+                           cwd=VERIF, env=env, capture_output=True, text=True, timeout=budget + 600)
+        if p.returncode != 0 or not os.path.getsize(out):
+            raise RuntimeError("second pass failed:\n" + (p.stdout + p.stderr)[-3000:])
+        got = pickle.load(open(out, "rb"))            # {case key: observation}
+    finally:
+        try:
+            os.unlink(out)
+        except OSError:
+            pass
+    return {i: got[c.key()] for i, c in enumerate(cases) if c.key() in got}
+
+def second_pass_worker(pid, tier, seed, out):
+    import pickle
+    h = importlib.import_module("harness.%s" % pid.lower())
+    cases = gen_cases(h, tier, seed)
+    budget = float(os.environ.get("VERIF_IMPL_BUDGET", "240"))
+    obs = run_impl(h, cases, budget, order=list(range(len(cases) - 1, -1, -1)))
+    res = {}
+    for i, o in obs.items():
+        try:
+            pickle.dumps(o)
+            res[cases[i].key()] = o
+        except Exception:
+            pass
+    pickle.dump(res, open(out, "wb"))
+    return 0
+
+def explore(h, tier, seed):
+    """run all cases of the tier: impl observation (twice: as generated, and cold in reverse order), model observation"""
+    cases = gen_cases(h, tier, seed)
+    t0 = time.time()
+    budget = float(os.environ.get("VERIF_IMPL_BUDGET", "240" if tier == "quick" else "3600"))
+    obs1 = run_impl(h, cases, budget)
+    if len(obs1) < len(cases):
+        cases = cases[:len(obs1)]
+    impl_obs = [obs1[i] for i in range(len(cases))]
+    n1 = len(cases)
     model_idx = [i for i, c in enumerate(cases) if c["model"]]
+    if getattr(h, "SECOND_PASS", True) and os.environ.get("VERIF_SECOND_PASS", "1") != "0":
+        obs2 = second_pass(h, tier, seed, cases, budget)
+        for i in sorted(obs2):
+            c2 = Case(cases[i]["fn"], cases[i]["args"], cases[i]["tag"], cases[i]["model"],
+                      **{k: v for k, v in cases[i].items() if k not in ("fn", "args", "tag", "model")})
+            c2["second_pass"] = True
+            cases.append(c2); impl_obs.append(obs2[i])
+    t_impl = time.time() - t0
     t0 = time.time()
     outs = run_driver([cases[i].line() for i in model_idx])
     t_model = time.time() - t0
     model_obs = {}
     for i, o in zip(model_idx, outs):
         model_obs[i] = o
-    return cases, impl_obs, model_obs, dict(t_impl=t_impl, t_model=t_model)
+    # the second-pass copies are compared with the same model lines
+    back = {}
+    for j in range(n1, len(cases)):
+        back.setdefault(cases[j].key(), []).append(j)
+    for i in model_idx:
+        for j in back.get(cases[i].key(), []):
+            model_obs[j] = model_obs[i]
+    return cases, impl_obs, model_obs, dict(t_impl=t_impl, t_model=t_model, first_pass=n1, second_pass=len(cases) - n1)
+
+def first_err(obs):
+    """the first error observation inside a (nested) observation, if any"""
+    if isinstance(obs, Err):
+        return obs
+    if isinstance(obs, (list, tuple)):
+        for x in obs:
+            e = first_err(x)
+            if e is not None:
+                return e
+    return None
 
 def judge(h, cases, impl_obs, model_obs, known):
     violations, known_hits, mismatches, bad_ops = [], collections.OrderedDict(), [], []
@@ -302,8 +430,9 @@ def judge(h, cases, impl_obs, model_obs, known):
         except Exception as ex:
             # the oracle could not read the observation.  When the implementation raised where the property's reading
             # expects a value, that is the failure to report; anything else is a defect of the harness (exit 2).
-            if isinstance(obs, Err):
-                clause = "the implementation raised %s where the property expects a result" % obs.name
+            inner = first_err(obs)
+            if inner is not None:
+                clause = "the implementation raised %s where the property expects a result" % inner.name
             else:
                 raise
         if clause:
@@ -348,6 +477,8 @@ def pyrepr(v):
 
 def case_json(c, obs, extra=None):
     d = {"fn": c["fn"], "args": pyrepr(norm_json(c["args"])), "impl": pyrepr(norm_json(obs))}
+    if isinstance(c, dict) and c.get("second_pass"):
+        d["second_pass"] = "fresh interpreter, all cases of the run called in reverse order of generation"
     if extra is not None:
         d.update(extra)
     return d
@@ -374,6 +505,8 @@ def shrink_pick(h, items):
     return sorted(items, key=lambda t: (len(t[0].line()), t[0].line()))
 
 def main(argv):
+    if len(argv) > 1 and argv[1] == "--second-pass":
+        return second_pass_worker(argv[2], argv[3], int(argv[4]), argv[5])
     pid = argv[1]
     tier = os.environ.get("VERIF_TIER") or (argv[2] if len(argv) > 2 and not argv[2].startswith("--") else "quick")
     if len(argv) > 2 and argv[2] in ("quick", "thorough"):
@@ -492,7 +625,8 @@ def main(argv):
             "not_proved": getattr(h, "NOT_PROVED", []),
             "evaluations": len(cases),
             "distinct_nontrivial": nontriv,
-            "rule": getattr(h, "RULE", "") + " | non-trivial = distinct op line whose implementation observation is neither an error nor empty",
+            "rule": getattr(h, "RULE", "") + " | non-trivial = distinct op line whose implementation observation is neither an error nor empty"
+                    " | every case is run twice: in generation order, and again in a fresh interpreter in reverse order",
             "samples": samples,
             "exhaustive": bool(getattr(h, "EXHAUSTIVE", {}).get(tier, False)),
             "compared_with_model": len(model_obs),
@@ -517,7 +651,8 @@ def main(argv):
 
 def human(c):
     s = "%s(%s)" % (c["fn"], ", ".join(repr(a) for a in c["args"]))
-    return s if len(s) < 400 else s[:400] + "…"
+    s = s if len(s) < 400 else s[:400] + "…"
+    return s + (" [asked in a fresh interpreter, the cases in reverse order]" if c.get("second_pass") else "")
 
 def human_obs(o):
     s = repr(o)
